@@ -59,6 +59,31 @@ OPS2 = [
 ]
 
 
+# third operator set (used by tools/mutation_audit.py --ops 3): sibling functions / fields exchanged, operands swapped,
+# iterators shortened, results dropped
+OPS3 = [
+    (r"find_next_line_break_pos\(", "find_prev_line_break_pos("), (r"find_prev_line_break_pos\(", "find_next_line_break_pos("),
+    (r"\.start_token\b", ".end_token"), (r"\.end_token\b", ".start_token"),
+    (r"\.start_element\b", ".end_element"),
+    (r"(\b[a-z_][\w.]*) < (\b[a-z_][\w.]*)", r"\2 < \1"), (r"(\b[a-z_][\w.]*) >= (\b[a-z_][\w.]*)", r"\2 >= \1"),
+    (r"\.iter\(\)", ".iter().skip(1)"), (r"\.iter\(\)", ".iter().take(1)"), (r"\.into_iter\(\)", ".into_iter().skip(1)"),
+    (r"\.len\(\)", ".len().saturating_sub(1)"),
+    (r"= Some\(([^()]+)\);", "= None;"), (r"break Some\(([^()]+)\)", "break None"),
+    (r"\.and_then\(", ".or_else(|| None).and_then("),
+    (r"\.children\b", ".children.clone().into_iter().take(0).collect::<Vec<_>>()"),
+    (r"\bis_removal\b(?!\()", "!is_removal"),
+    (r"\.lines\(\)", ".lines().skip(1)"), (r"\.chars\(\)", ".chars().skip(1)"), (r"\.char_indices\(\)", ".char_indices().skip(1)"),
+    (r"\.rev\(\)", ".rev().skip(1)"),
+    (r"\.clone\(\), false\)", ".clone(), true)"),
+    (r"\bcontent\.len\(\)", "0"),
+    (r"unwrap_or\(0\)", "unwrap_or(usize::MAX)"),
+    (r"\b(\w+)\.contains\(&([\w.]+)\)", r"!\1.contains(&\2)"),
+    (r"\.is_empty\(\)", ".len() == 1"),
+    (r"' ' \| '\\n' \| '\\r'", "' ' | '\\n'"),
+    (r"Some\(b'\\t'\) => \{\}", "Some(b'\\t') => break false,"),
+]
+
+
 def source_files(repo):
     out = []
     for root in ("chiritori/src", "chiritori-cli/src"):
